@@ -524,8 +524,10 @@ ssize_t comp_read(zckCtx *zck, char *dst, size_t dst_size, bool use_dict) {
         /* If we finished reading and we've reached here, we're done
          * decompressing */
         if(finished_rd) {
-            finished_dc = true;
-            continue;
+            /* The file ended in the middle of a chunk */
+            set_error(zck, "Unexpected end of file in chunk %llu",
+                      (long long unsigned) zck->comp.data_idx->number);
+            goto read_error;
         }
 
         /* Make sure we don't read beyond current chunk length */
